@@ -1101,7 +1101,11 @@ class Run:
         self.spec += 1
         try:
             if callable(spec):
-                return spec(SpecCtx(self, fr, extra))
+                try:
+                    return spec(SpecCtx(self, fr, extra))
+                except (z3.Z3Exception, KeyError, AttributeError, TypeError, IndexError) as e:
+                    raise EngineError(f"contract clause `{getattr(spec, '__name__', 'clause')}` of {self.x.unit_name} does not fit the code any more "
+                                      f"(variables / loop shapes it talks about changed): {type(e).__name__}: {e}")
             tree = self.x.parse_spec(spec)
             sf = Frame(fr.finfo, parent=fr)
             if extra:
